@@ -125,13 +125,32 @@ class Ctx:
         self.functions_analysed.add(f.qualname)
         return g
 
+    # ---- reuse of a sibling property's rules under this property's own rule id
+    _rule_override: str | None = None
+
+    def as_rule(self, rule: str):
+        """Context manager: every obligation / finding recorded inside is filed under `rule` (a sibling property's check is reused because the
+        mechanism is shared; the reason it matters for this property is given where the reuse happens)."""
+        import contextlib
+
+        @contextlib.contextmanager
+        def cm():
+            prev, self._rule_override = self._rule_override, rule
+            try:
+                yield
+            finally:
+                self._rule_override = prev
+        return cm()
+
     def ok(self, rule: str, instance: str, detail: str = "", nontrivial: bool = True, sample: dict | None = None) -> None:
+        rule = self._rule_override or rule
         self.obligations.append(Obligation(rule, instance, True, detail, nontrivial))
         if sample is not None or len(self.samples) < 40:
             self.samples.append({"rule": rule, "instance": instance, "verdict": "holds", "detail": detail[:600], **(sample or {})})
 
     def fail(self, rule: str, func: FuncInfo | str, construct: str, message: str, node: Node | ast.AST | None = None,
              instance: str | None = None, **detail) -> None:
+        rule = self._rule_override or rule
         fq = func.qualname if isinstance(func, FuncInfo) else func
         where = ""
         if isinstance(func, FuncInfo):
